@@ -2,6 +2,7 @@
 //! desugaring of the generating AST.
 
 use crate::gen::probe_set;
+use crate::interval::*;
 use crate::mv::*;
 use crate::observe::*;
 use crate::rast::*;
@@ -112,21 +113,68 @@ pub fn judge_text(text: &str, des: &Option<Desugared>, extra_basis: &[MV]) -> Ju
     out
 }
 
+/// caret semantics depend on which leading components are zero
 fn zero_pattern(p: &Partial) -> String {
-    p.comps
-        .iter()
-        .map(|c| match c {
-            Xr::Num(0) => "Z",
-            Xr::Num(_) => "N",
-            Xr::Wild(_) => "X",
-        })
-        .collect::<Vec<_>>()
-        .join(".")
+    let (a, b, c, _) = p.normal();
+    let f = |x: Option<u64>| match x {
+        Some(0) => "Z",
+        Some(_) => "N",
+        None => "X",
+    };
+    match (a, b, c) {
+        (None, _, _) => "X".to_string(),
+        (_, None, _) => f(a).to_string(),
+        (_, _, None) => format!("{}.{}", f(a), f(b)),
+        _ => format!("{}.{}.{}", f(a), f(b), f(c)),
+    }
 }
 
+/// signature cell of one comparator: operator + *normalised* partial shape
 pub fn comparator_shape(op: Op, p: &Partial) -> String {
-    let shape = if op == Op::Caret { zero_pattern(p) } else { p.shape().replace("+pre", "") };
-    format!("{}{}{}", op.name(), shape, if p.pre.is_empty() { "" } else { "+pre" })
+    let ns = p.normal_shape();
+    if op == Op::Caret {
+        format!("^{}{}", zero_pattern(p), if ns.ends_with("+pre") { "+pre" } else { "" })
+    } else {
+        format!("{}{}", op.name(), ns)
+    }
+}
+
+/// interval denoted by a list of primitive comparators (None if it contains `*`, whose lower
+/// end is ambiguous between the two readings, or `<0.0.0-0`)
+fn prims_interval(prims: &[Prim]) -> Option<Iv> {
+    let mut iv = Iv::all();
+    for p in prims {
+        let one = match p {
+            Prim::Any | Prim::Nothing => return None,
+            Prim::Cmp(POp::Lt, v) => Iv { lo: End::Unb, hi: End::Exc(v.clone()) },
+            Prim::Cmp(POp::Le, v) => Iv { lo: End::Unb, hi: End::Inc(v.clone()) },
+            Prim::Cmp(POp::Gt, v) => Iv { lo: End::Exc(v.clone()), hi: End::Unb },
+            Prim::Cmp(POp::Ge, v) => Iv { lo: End::Inc(v.clone()), hi: End::Unb },
+            Prim::Cmp(POp::Eq, v) => Iv { lo: End::Inc(v.clone()), hi: End::Inc(v.clone()) },
+        };
+        iv = iv.intersect(&one);
+    }
+    Some(iv)
+}
+
+/// For attribution only: does the comparator, parsed alone, store bounds that differ from the
+/// documented ones although `satisfies` alone agrees (the prerelease gate masks it)?
+fn latent_bounds_differ(text: &str, prims: &[Prim]) -> bool {
+    let iv = match prims_interval(prims) {
+        Some(iv) => iv,
+        None => return false,
+    };
+    let r = match guarded(|| Range::parse(text)) {
+        Ok(Ok(r)) => r,
+        _ => return false,
+    };
+    let b = match bounds(&r) {
+        Ok(b) => b,
+        Err(_) => return false,
+    };
+    let mut basis = b.versions();
+    basis.extend(iv.versions());
+    probe_set(&basis).iter().any(|v| b.contains(v) != iv.contains(v))
 }
 
 /// Attribute a mismatch of a whole range to the smallest part that already disagrees alone,
@@ -143,7 +191,7 @@ pub fn attribute(ast: &RangeAst, sp: &Spelling, whole: &Mismatch) -> String {
                 let one = RangeAst { alts: vec![a.clone()] };
                 let j = judge_text(&one.render(&plain), &desugar_range(&one), &[]);
                 if let Some(m) = j.mismatch {
-                    return format!("{}/hyphen:{} - {}", m.dir, lo.shape(), hi.shape());
+                    return format!("{}/hyphen:{} - {}", m.dir, lo.normal_shape(), hi.normal_shape());
                 }
             }
             Alt::Set(toks) => {
@@ -153,6 +201,28 @@ pub fn attribute(ast: &RangeAst, sp: &Spelling, whole: &Mismatch) -> String {
                         let j = judge_text(&one.render(&plain), &desugar_range(&one), &[]);
                         if let Some(m) = j.mismatch {
                             return format!("{}/{}", m.dir, comparator_shape(*op, p));
+                        }
+                    }
+                }
+            }
+        }
+    }
+    // 1b. a comparator whose stored bounds differ from the documented ones, masked by the gate
+    //     when it stands alone and visible only in a conjunction
+    for a in &ast.alts {
+        match a {
+            Alt::Hyphen(lo, hi) => {
+                let one = RangeAst { alts: vec![a.clone()] };
+                if latent_bounds_differ(&one.render(&plain), &desugar_hyphen(lo, hi)) {
+                    return format!("compose/latent-bounds/hyphen:{} - {}", lo.normal_shape(), hi.normal_shape());
+                }
+            }
+            Alt::Set(toks) => {
+                for t in toks {
+                    if let Tok::Cmp(op, p) = t {
+                        let one = RangeAst::single(*op, p.clone());
+                        if latent_bounds_differ(&one.render(&plain), &desugar(*op, p)) {
+                            return format!("compose/latent-bounds/{}", comparator_shape(*op, p));
                         }
                     }
                 }
